@@ -618,7 +618,7 @@ var byteMuts = []string{"flip", "splice", "trunc", "insert-token", "dup-chunk", 
 
 func genCase(t *rapid.T) Case {
 	smalls()
-	target := rapid.SampledFrom([]string{tParse, tParse, tMetrics, tMetrics, tResponse, tStream}).Draw(t, "target")
+	target := rapid.SampledFrom([]string{tParse, tParse, tMetrics, tMetrics, tResponse, tResponse, tResponse, tStream, tStream, tStream}).Draw(t, "target") // a parse/metrics case is 11 calls, a translator case one
 	g := groupFor(target)
 	c := Case{Target: target}
 	// the response translator is only reached by JSON values: favour structure-preserving mutations
@@ -694,7 +694,7 @@ func TestC20(t *testing.T) {
 		t.Fatalf("profiles: %v", err)
 	}
 	corpus()
-	ev.Check(t, rec, "mutations", rec.Pick(quickMutations, 250000), genCase, runCase)
+	ev.Check(t, rec, "mutations", rec.Pick(quickMutations, 150000), genCase, runCase)
 }
 
-const quickMutations = 15000
+const quickMutations = 20000
